@@ -16,6 +16,15 @@ func init() {
 					{Fn: "Harness_C14_dom_n5_recover", Tiers: "thorough", Reach: []string{"end"}, Bounds: "all CFGs on 4 blocks + recover block, out-degree <= 2"},
 				},
 			}},
+			Post: func(c *Ctx) error {
+				// clause (b): CFGs the builder really produces, naive and lifted form
+				max := 16
+				if c.Tier == "thorough" {
+					max = 40
+				}
+				runIRChecks(c, false, true, max)
+				return nil
+			},
 			Assumptions: []string{
 				"precondition of buildDomTree: every block reachable from the entry or the recover block; the entry and recover blocks have no predecessors; the recover region is disjoint from the entry region",
 			},
